@@ -123,9 +123,17 @@ func (r *Run) Violations() int64 { return r.viols.Load() }
 // Distinct registers a distinct non-trivial case key.
 func (r *Run) Distinct(key string) {
 	r.mu.Lock()
-	r.distinct[key] = struct{}{}
+	if len(r.distinct) < MaxDistinctKeys {
+		r.distinct[key] = struct{}{}
+	} else if _, ok := r.distinct[key]; !ok {
+		r.counters["distinct_keys_not_recorded(cap reached, count is conservative)"]++
+	}
 	r.mu.Unlock()
 }
+
+// MaxDistinctKeys bounds the per-child set of distinct case keys (the
+// reported number is then a conservative lower bound).
+const MaxDistinctKeys = 100000
 
 func (r *Run) Count(name string, n int64) {
 	r.mu.Lock()
